@@ -85,7 +85,7 @@ def run_unit(unit, repo, scratch, rlimit=None, extra_args=()):
         f.write(text)
     res.gen_path = gen
     cmd = [VERUS, gen, "--output-json", "--time", "--triggers-mode", "silent", "--error-format=json",
-           "--multiple-errors", "4"]
+           "--multiple-errors", "10"]
     if rlimit:
         cmd += ["--rlimit", str(rlimit)]
     cmd += list(extra_args)
